@@ -25,7 +25,11 @@ Shrunk == {i \in {[o |-> o, p |-> PrioIn(o), kind |-> "set", upd |-> {q \in Cont
 Dels == {i \in IntentDel : i.o \in StoredOwners}
 SampleIntents == RandomSubset(4, IntentSet) \cup RandomSubset(1, Verbatim) \cup RandomSubset(1, ReprioOK)
                  \cup RandomSubset(1, Shrunk) \cup RandomSubset(2, Dels)
-ReqSample == LET S == SampleIntents IN {{i} : i \in S} \cup {{i, j} : i \in S, j \in S}
+\* VERIF_GEN_BIAS = "verbatim": most requests re-submit stored intents exactly as they are (C09), alone or in pairs
+Bias == IOEnv.VERIF_GEN_BIAS
+ReqSample == IF Bias = "verbatim" /\ Verbatim # {}
+             THEN {{i} : i \in Verbatim} \cup {{i, j} : i \in Verbatim, j \in Verbatim} \cup {{i} : i \in RandomSubset(2, IntentSet)}
+             ELSE LET S == SampleIntents IN {{i} : i \in S} \cup {{i, j} : i \in S, j \in S}
 
 GInit == Init /\ hist = [init |-> FunToPairs(device), steps |-> <<>>]
 
